@@ -186,6 +186,28 @@ func wildGen(prop string) func(rng *verifsim.RNG, idx int, tier string) *Plan {
 			}
 			p.Actions = append(p.Actions, rsAction(at+int64(rng.Dur(time.Millisecond, time.Second)), hostAddr(rng.Intn(3))))
 		}
+		maybeReinit(rng, p, iw.Name, 500*nsMs, int64(horizon), 0.2)
+		if rng.Bool(0.2) {
+			// The same stanza objects are expanded by the advertiser, the metrics
+			// collector and the debug API: park an advertiser build inside its
+			// listing and let a complete expansion by a request overtake it.
+			p.Class = "overlapping-expansions"
+			n.Config.Debug = &DebugSpec{Address: "127.0.0.1:9430", Prometheus: true}
+			t0 := int64(rng.Dur(time.Second, horizon))
+			seam := "rtnl.addr"
+			if prop == "C15" {
+				seam = "rtnl.route"
+			}
+			p.Faults = append(p.Faults, Fault{Seam: seam, From: t0, Hold: "hx"})
+			p.Actions = append(p.Actions, rsAction(t0+1000, hostAddr(0)),
+				Action{At: t0 + 600*nsMs, Kind: "http", Path: []string{"/_/api/interfaces", "/metrics"}[rng.Intn(2)]},
+				Action{At: t0 + 700*nsMs, Kind: "release", Hold: "hx"},
+				rsAction(t0+900*nsMs, hostAddr(1)))
+			if p.Horizon < t0+2*nsSec {
+				p.Horizon = t0 + 2*nsSec
+			}
+			return p
+		}
 		switch rng.Intn(4) {
 		case 0:
 			p.Faults = append(p.Faults, Fault{Seam: "rtnl.addr", Count: -1, Mode: "perm", Arg: int64(rng.Intn(1 << 20))})
@@ -272,6 +294,18 @@ func wildOracle(prop string) func(info *runInfo, res *verifsim.Result) {
 				res.Violate(prop+".model", "model", "%s", why)
 				continue
 			}
+			if prop != "C15" {
+				stale := false
+				for i, from := range w.build.addrIf {
+					if g := h.byKey[genKey(w.node, w.ifn, w.gen)]; g != nil && g.index != 0 && w.build.addrIdx[i] != g.index {
+						res.Violate(rule, "foreign-listing", "%s RA #%d at %s: address listing #%d was taken from %s, not from %s", w.ifn, w.seq, ms(w.t), i, from, w.ifn)
+						stale = true
+					}
+				}
+				if stale {
+					continue
+				}
+			}
 			m := expectRA(*in)
 			if m.fail != "" {
 				switch {
@@ -301,6 +335,31 @@ func wildOracle(prop string) func(info *runInfo, res *verifsim.Result) {
 		// A build whose listing failed must not have produced an RA: covered
 		// above (m.fail). A build that failed although it should not have is
 		// liveness (C10); here, count how often failure was reached at all.
+		if prop != "C15" {
+			// the initial RA of a re-dialed generation is built after every plugin
+			// has been prepared for the (possibly re-created) interface: a listing by
+			// an index the interface no longer has is then a stale index
+			for _, b := range h.builds {
+				if !isTaskGoroutine(info, b.g, b.ifn) {
+					continue
+				}
+				// the generation being initialised: the latest successful dial before this build
+				var g *generation
+				for _, x := range h.gens {
+					if x.node == b.node && x.ifn == b.ifn && x.dialSeq < b.seq {
+						g = x
+					}
+				}
+				if g == nil || g.index == 0 {
+					continue
+				}
+				for i, from := range b.addrIf {
+					if b.addrIdx[i] != g.index {
+						res.Violate(rule, "stale-index", "%s: the build at %s listed addresses (#%d) of %s instead of %s after the interface had been re-created and re-dialed", b.ifn, ms(b.t1), i, from, b.ifn)
+					}
+				}
+			}
+		}
 		for _, b := range h.builds {
 			for _, a := range b.addr {
 				if strings.HasPrefix(a, "!") {
